@@ -22,7 +22,7 @@ import itertools
 
 import numpy as np
 
-from dst import kernel, seams, refmodel
+from dst import kernel, seams, refmodel, runner
 from dst.kernel import Sim, HarnessError, stream, canon, digest, H
 
 PROP = 'C10'
@@ -80,7 +80,7 @@ def z_rows(code):
 # ---------------------------------------------------------------------------
 # execution
 # ---------------------------------------------------------------------------
-def execute(plan, keep_events=False):
+def execute_here(plan, keep_events=False):
     sim = Sim(plan['seed'], keep_events=keep_events)
     violations = []
     states = set()
@@ -93,22 +93,37 @@ def execute(plan, keep_events=False):
 
     proc = sim.new_proc('automaton')
     kernel.set_current(proc)
-    seams.install_entropy()
+    seams.install_entropy(plan['seed'])
+    # a session = several lattices / decoders used one after the other in
+    # one simulated process (what a size or code scan does)
+    parts = plan['parts'] if plan['kind'] == 'session' else [plan]
+    cur = {'part': parts[0]}
+    _violate = violate
+
+    def violate(cls, detail):     # noqa: F811
+        d = {'decoder': cur['part']['decoder'], 'code': cur['part']['code']}
+        d.update(detail)
+        if plan['kind'] == 'session':
+            d['session_part'] = parts.index(cur['part'])
+        violations.append({'class': cls, 'detail': d})
+
     try:
-        try:
-            code = make_code(plan['code'], plan['size'])
-            _ = code.stabilizer_matrix
-        except Exception as e:
-            # a size outside the class's supported family: skipped, counted
-            sim.probe('unsupported_size_' + type(e).__name__)
-            code = None
-        if code is not None:
+        for part in parts:
+            cur['part'] = part
+            part = dict(part, seed=plan['seed'])
+            try:
+                code = make_code(part['code'], part['size'])
+                _ = code.stabilizer_matrix
+            except Exception as e:
+                # a size outside the class's supported family: skipped
+                sim.probe('unsupported_size_' + type(e).__name__)
+                continue
             rc = refmodel.RefCode(code)
             faces = z_rows(code)
-            if plan['kind'] == 'geometry':
-                run_geometry(plan, sim, code, rc, faces, violate, stats)
+            if part['kind'] == 'geometry':
+                run_geometry(part, sim, code, rc, faces, violate, stats)
             else:
-                run_trajectories(plan, sim, code, rc, faces, violate,
+                run_trajectories(part, sim, code, rc, faces, violate,
                                  stats, states)
     finally:
         seams.uninstall_entropy()
@@ -121,6 +136,11 @@ def execute(plan, keep_events=False):
         'probes': sim.probes,
         'stats': stats,
     }
+
+
+def execute(plan, **kw):
+    """One plan = one simulated process image: run in a forked child."""
+    return runner.isolated(execute_here, plan, **kw)
 
 
 def run_geometry(plan, sim, code, rc, faces, violate, stats):
@@ -350,6 +370,39 @@ def trajectory_plans(tier, seed):
     return out
 
 
+def session_plans(tier, seed):
+    """Lattices of different code classes but identical size, used one
+    after the other by the same decoder class in one process, in both
+    orders; geometry first, then a few trajectories."""
+    out = []
+    rng = stream(seed, 'session')
+    for kind, codes in FAMILIES.items():
+        for size in sizes_for(kind, tier)[:4 if tier == 'quick' else None]:
+            for order in (codes, codes[::-1]):
+                parts = []
+                for cname in order:
+                    parts.append({'kind': 'geometry', 'decoder': kind,
+                                  'code': cname, 'size': size})
+                for cname in order:
+                    try:
+                        n = make_code(cname, size).n
+                    except Exception:
+                        continue
+                    errs = [random_error(rng, n, rng.choice([0.05, 0.15]),
+                                         'Z') for _ in range(
+                                             3 if kind == 'cubic' else 1)]
+                    parts.append({
+                        'kind': 'trajectory', 'decoder': kind,
+                        'code': cname, 'size': size, 'errors': errs,
+                        'knobs': ({'max_rounds': 2} if kind == 'rotated'
+                                  else None)})
+                out.append({'property': PROP, 'kind': 'session',
+                            'seed': H(seed, 'session', len(out)),
+                            'decoder': kind, 'code': '+'.join(order),
+                            'size': size, 'parts': parts})
+    return out
+
+
 # ---------------------------------------------------------------------------
 # check interface
 # ---------------------------------------------------------------------------
@@ -363,6 +416,7 @@ def make_jobs(tier, seed):
     jobs.sort(key=lambda j: (j['plans'][0]['decoder'] != 'rotated',
                              -max(j['plans'][0]['size'])))
     jobs += [{'plans': [p]} for p in geometry_plans(tier, seed)]
+    jobs += [{'plans': [p]} for p in session_plans(tier, seed)]
     return jobs
 
 
@@ -375,8 +429,12 @@ def run_job(job):
         for k in ('steps', 'edges', 'decodes'):
             summ[k] += o['stats'][k]
         summ['states'].update(o['states'])
-        if plan['kind'] == 'geometry':
-            summ['states'].add(digest(['geo', plan['code'], plan['size']]))
+        if plan['kind'] in ('geometry', 'session'):
+            summ['states'].add(digest([plan['kind'], plan['code'],
+                                       plan['size']]))
+            if plan['kind'] == 'session':
+                summ['probes']['session_mixing_code_classes'] = \
+                    summ['probes'].get('session_mixing_code_classes', 0) + 1
         for k, v in o['probes'].items():
             summ['probes'][k] = summ['probes'].get(k, 0) + v
         if not summ['samples']:
@@ -434,6 +492,27 @@ def signature(plan, v):
 
 
 def shrink(plan, want_sig, max_exec=150):
+    if plan['kind'] == 'session':
+        # drop parts while the same violation persists
+        best = copy.deepcopy(plan)
+        n_exec = 0
+        improved = True
+        while improved and n_exec < max_exec and len(best['parts']) > 1:
+            improved = False
+            for i in range(len(best['parts']) - 1, -1, -1):
+                q = copy.deepcopy(best)
+                del q['parts'][i]
+                n_exec += 1
+                try:
+                    o = execute(q)
+                except HarnessError:
+                    continue
+                if any(signature(q, v) == want_sig
+                       for v in o['violations']):
+                    best = q
+                    improved = True
+                    break
+        return best, n_exec
     if plan['kind'] != 'trajectory':
         return plan, 0
     best = copy.deepcopy(plan)
